@@ -14,13 +14,29 @@
 (* string of length <= MaxLen is resolved: the theorems are invariants,    *)
 (* and one line per database is printed with the admissible denotations    *)
 (* of every name that has any (all other names must not resolve).          *)
+(*                                                                         *)
+(* Deliberately colliding names (round 3):                                 *)
+(*  - MaxPAlias = 1: one more prefix whose VALUE is that of a prefix       *)
+(*    already there (`milli-` next to `m-`): two spellings of one prefix;  *)
+(*  - MaxCollide = 1: one more unit (value CPrime) whose NAME is           *)
+(*    prefix name o exact name [o "s"] of the database, up to MaxLen       *)
+(*    letters: an exactly defined unit that is spelled like a prefixed     *)
+(*    (or prefixed plural) reading, e.g. `millix` next to `m-`, `milli-`,  *)
+(*    `x`.  The name is not one of the 12 short names, so it is kept as a  *)
+(*    name, not as an index.                                               *)
 (***************************************************************************)
 EXTENDS Names, TLC, Json
 
 CONSTANTS MaxUnits, MaxPrefixes, MaxLen, KindMode,   \* KindMode: "all" | "parity" (kind fixed by the name)
-          MaxAlias                                   \* 0 | 1: one more unit defined as an alias `x t` of a name t
+          MaxAlias,                                  \* 0 | 1: one more unit defined as an alias `x t` of a name t
+          MaxPAlias,                                 \* 0 | 1: one more prefix with the value of an existing prefix
+          MaxCollide,                                \* 0 | 1: one more unit named prefix o exact name [o s]
+          NN                                         \* the short names in use: indices into NameOf (1..12 = all)
 
-VARIABLES us, ps,     \* sequences of [i, k], ascending in i
+VARIABLES us,         \* sequence of [i, k], ascending in i
+          ps,         \* sequence of [i, k, w]: prefix NameOf[i] of kind k and value PPrime[w]; ascending in i with w = i,
+                      \* then possibly one more entry with w # i (the second spelling of prefix w)
+          co,         \* <<>> or <<name>>: the colliding unit
           al          \* <<>> or <<[i, t]>>: unit NameOf[i] is defined as the bare name t (added last)
 
 L == {97, 98, 115}
@@ -29,49 +45,73 @@ NameOf == <<<<97>>, <<98>>, <<115>>,
             <<115, 97>>, <<115, 98>>, <<115, 115>>>>
 UPrime == <<2, 3, 5, 7, 11, 13, 17, 19, 23, 29, 31, 37>>
 PPrime == <<41, 43, 47, 53, 59, 61, 67, 71, 73, 79, 83, 89>>
-NN == 1..12
+CPrime == 97
+ASSUME NN \subseteq 1..12
 
 Strs(k) == [1..k -> L]
 Queries == UNION {Strs(k) : k \in 1..MaxLen}
 
-Init == us = <<>> /\ ps = <<>> /\ al = <<>>
+vars == <<us, ps, co, al>>
+Init == us = <<>> /\ ps = <<>> /\ co = <<>> /\ al = <<>>
+HasPAlias == \E j \in DOMAIN ps : ps[j].w # ps[j].i
 
 AddUnit(i, k) ==
-  /\ ps = <<>> /\ al = <<>> /\ Len(us) < MaxUnits
+  /\ ps = <<>> /\ co = <<>> /\ al = <<>> /\ Len(us) < MaxUnits
   /\ (IF us = <<>> THEN TRUE ELSE us[Len(us)].i < i)
   /\ (KindMode = "parity" => k = (IF i % 2 = 1 THEN "base" ELSE "const"))
-  /\ us' = Append(us, [i |-> i, k |-> k]) /\ UNCHANGED <<ps, al>>
+  /\ us' = Append(us, [i |-> i, k |-> k]) /\ UNCHANGED <<ps, co, al>>
 
 \* a long prefix is entered into `units` under its own name: keep it apart from the unit names so that the
 \* database does not depend on the loader's order of insertion (that is C08/C12's subject, not C07's)
 AddPrefix(i, k) ==
-  /\ al = <<>> /\ Len(ps) < MaxPrefixes
+  /\ al = <<>> /\ co = <<>> /\ ~HasPAlias /\ Len(ps) < MaxPrefixes
   /\ (IF ps = <<>> THEN TRUE ELSE ps[Len(ps)].i < i)
   /\ (k = "long" => \A j \in DOMAIN us : us[j].i # i)
   /\ (KindMode = "parity" => k = (IF i % 3 = 0 THEN "long" ELSE "short"))
-  /\ ps' = Append(ps, [i |-> i, k |-> k]) /\ UNCHANGED <<us, al>>
+  /\ ps' = Append(ps, [i |-> i, k |-> k, w |-> i]) /\ UNCHANGED <<us, co, al>>
+
+\* a second spelling of prefix ps[j]: another name (of any length, either kind), the same value
+AddPrefixAlias(i, k, j) ==
+  /\ al = <<>> /\ co = <<>> /\ ~HasPAlias /\ MaxPAlias > 0
+  /\ j \in DOMAIN ps
+  /\ \A x \in DOMAIN ps : ps[x].i # i
+  /\ (k = "long" => \A x \in DOMAIN us : us[x].i # i)
+  /\ (KindMode = "parity" => k = (IF i % 3 = 0 THEN "long" ELSE "short"))
+  /\ ps' = Append(ps, [i |-> i, k |-> k, w |-> ps[j].w]) /\ UNCHANGED <<us, co, al>>
 
 AddBase == \E i \in NN : AddUnit(i, "base")
 AddConst == \E i \in NN : AddUnit(i, "const")
 AddShort == \E i \in NN : AddPrefix(i, "short")
 AddLong == \E i \in NN : AddPrefix(i, "long")
+AddAPrefixAlias == \E i \in NN, k \in {"short", "long"} : \E j \in DOMAIN ps : AddPrefixAlias(i, k, j)
 Num(k) == VNum(QFromInt(k), DEmpty)
 
 \* the registry the definitions without the alias denote, with the prefixes in the order `ord` (a permutation of DOMAIN ps)
 DbBase(ord) ==
   LET consts == {j \in DOMAIN us : us[j].k = "const"}
       longs == {j \in DOMAIN ps : ps[j].k = "long"}
-      unames == {NameOf[us[j].i] : j \in consts} \cup {NameOf[ps[j].i] : j \in longs}
+      unames == {NameOf[us[j].i] : j \in consts} \cup {NameOf[ps[j].i] : j \in longs} \cup {co[j] : j \in DOMAIN co}
   IN [base |-> {NameOf[us[j].i] : j \in {x \in DOMAIN us : us[x].k = "base"}},
       units |-> [n \in unames |->
                    IF \E j \in consts : NameOf[us[j].i] = n
                    THEN Num(UPrime[us[CHOOSE j \in consts : NameOf[us[j].i] = n].i])
-                   ELSE Num(PPrime[ps[CHOOSE j \in longs : NameOf[ps[j].i] = n].i])],
-      prefixes |-> [j \in DOMAIN ps |-> [name |-> NameOf[ps[ord[j]].i], v |-> QFromInt(PPrime[ps[ord[j]].i])]],
+                   ELSE IF \E j \in longs : NameOf[ps[j].i] = n
+                   THEN Num(PPrime[ps[CHOOSE j \in longs : NameOf[ps[j].i] = n].w])
+                   ELSE Num(CPrime)],
+      prefixes |-> [j \in DOMAIN ps |-> [name |-> NameOf[ps[ord[j]].i], v |-> QFromInt(PPrime[ps[ord[j]].w])]],
       ans |-> VNone, subst |-> {}, closed |-> TRUE]
 
 Ident == [j \in DOMAIN ps |-> j]
 Orders == {f \in [DOMAIN ps -> DOMAIN ps] : \A a, b \in DOMAIN ps : f[a] = f[b] => a = b}
+
+\* the colliding unit: its name is spelled prefix name o exactly defined name [o "s"] and is not yet defined exactly
+ColliderNames(db) ==
+  {n \in {NameOf[ps[j].i] \o u \o suf : j \in DOMAIN ps, u \in db.base \cup DOMAIN db.units, suf \in {<<>>, <<115>>}} :
+     Len(n) <= MaxLen /\ ~IsExact(db, n)}
+AddCollider(n) ==
+  /\ al = <<>> /\ co = <<>> /\ MaxCollide > 0
+  /\ co' = <<n>> /\ UNCHANGED <<us, ps, al>>
+AddACollider == \E n \in ColliderNames(DbBase(Ident)) : AddCollider(n)
 
 \* an alias `x t`: x is a new name, t (length <= 2, not x) has exactly one admissible reading, and that reading is
 \* exact or prefix + exact (the loader resolves t the same way; a plural or ambiguous t is left to C08/C12).
@@ -86,17 +126,18 @@ AddAlias(i, t) ==
   /\ \A j \in DOMAIN us : us[j].i # i
   /\ \A j \in DOMAIN ps : ps[j].k = "long" => ps[j].i # i
   /\ t # NameOf[i]
+  /\ \A j \in DOMAIN co : co[j] # NameOf[i]
   /\ \E db \in {DbBase(Ident)} :
        /\ Cardinality(Readings(db, t)) = 1
        /\ \A r \in Readings(db, t) : r.cls <= 1
        /\ \E dba \in {[db EXCEPT !.units = [n \in DOMAIN db.units \cup {NameOf[i]} |->
                                                IF n = NameOf[i] THEN AliasValue(db, t) ELSE db.units[n]]]} :
             Readings(dba, t) = Readings(db, t)            \* the new name does not open a second reading of t
-  /\ al' = <<[i |-> i, t |-> t]>> /\ UNCHANGED <<us, ps>>
+  /\ al' = <<[i |-> i, t |-> t]>> /\ UNCHANGED <<us, ps, co>>
 AddAnAlias == \E i \in NN, t \in Strs(1) \cup Strs(2) : AddAlias(i, t)
 
-Next == AddBase \/ AddConst \/ AddShort \/ AddLong \/ AddAnAlias
-Spec == Init /\ [][Next]_<<us, ps, al>>
+Next == AddBase \/ AddConst \/ AddShort \/ AddLong \/ AddAPrefixAlias \/ AddACollider \/ AddAnAlias
+Spec == Init /\ [][Next]_vars
 
 DbOrd(ord) == WithAlias(DbBase(ord))
 Db == DbOrd(Ident)
@@ -118,9 +159,10 @@ Theorems == \E db \in {Db} : TheoremsOn(db, {n \in Queries : CandidateReadings(d
 Flat(val) == [v |-> QToNative(val.v), d |-> IF DIsEmpty(val.d) THEN <<>> ELSE CHOOSE u \in DOMAIN val.d : TRUE]
 
 CaseOf(db) ==
-  [units |-> [j \in DOMAIN us |-> [name |-> NameOf[us[j].i], k |-> us[j].k, v |-> UPrime[us[j].i]]],
+  [units |-> [j \in DOMAIN us |-> [name |-> NameOf[us[j].i], k |-> us[j].k, v |-> UPrime[us[j].i]]]
+             \o [j \in DOMAIN co |-> [name |-> co[j], k |-> "const", v |-> CPrime]],
    alias |-> [j \in DOMAIN al |-> [name |-> NameOf[al[j].i], t |-> al[j].t, den |-> Flat(db.units[NameOf[al[j].i]])]],
-   prefixes |-> [j \in DOMAIN ps |-> [name |-> NameOf[ps[j].i], k |-> ps[j].k, v |-> PPrime[ps[j].i]]],
+   prefixes |-> [j \in DOMAIN ps |-> [name |-> NameOf[ps[j].i], k |-> ps[j].k, v |-> PPrime[ps[j].w]]],
    hits |-> {[name |-> n, adm |-> {Flat(Den(db, r)) : r \in Readings(db, n)},
               ncand |-> Cardinality(CandidateReadings(db, n))] :
                n \in {q \in Queries : Readings(db, q) # {}}}]
